@@ -18,6 +18,7 @@ T     : observations of the generated code (unit offsets/sizes, get_const::<OFF,
 import json
 import os
 import random
+import re
 import subprocess
 import threading
 import time
@@ -427,6 +428,10 @@ def x_key(l, p, tkeys):
     return "accessor-mismatch:%s:%s:%s" % (op, f["ty"], "panic" if l["r"] == "panic" else "wrong")
 
 
+def wrap_union_field_calls(text):
+    return re.sub(r"(self\s*\.\s*_bitfield_\d+\s*\.\s*as_(?:ref|mut)\s*\(\s*\))", r"unsafe { \1 }", text)
+
+
 def r2_batch(tag, sel, flags, agg, stats, notes, drifts, samples, seeds, tamper=False):
     decls = [("S%d" % i, p) for i, p in enumerate(sel)]
     lines, parsed, d = R2.build_and_run(tag, decls, flags=flags, seeds=seeds)
@@ -436,7 +441,17 @@ def r2_batch(tag, sel, flags, agg, stats, notes, drifts, samples, seeds, tamper=
             else "generated-accessors-do-not-compile:%s" % ",".join(parsed["codes"])
         agg.add(shape, {"flags": list(flags), "errors": parsed["rustc_errors_in_bindings"], "first_error": parsed["first"],
                         "header": R2.render_decl(*decls[0]), "batch_dir": d})
-        return
+        if shape != "union-field-accessors-do-not-compile" or tamper:
+            return
+        # the recorded defect is textual (calls of the unsafe fns as_ref/as_mut outside an unsafe block); with exactly
+        # those calls wrapped the accessors of wrapper-style unions compile, and what they read and store is judged
+        # like everywhere else (the finding above stays: the repair is the check's, not bindgen's)
+        lines, parsed, d = R2.build_and_run(tag + "-unsafe-wrapped", decls, flags=flags, seeds=seeds, patch=wrap_union_field_calls)
+        if lines is None:
+            notes.append("wrapper-style unions of batch %s not judged by execution (still not compiling after wrapping as_ref/as_mut): %s"
+                         % (tag, json.dumps(parsed)[:200]))
+            return
+        stats["union_wrapper_decls_judged_after_wrapping"] = stats.get("union_wrapper_decls_judged_after_wrapping", 0) + len(decls)
     if lines is None:
         # bindgen refusing / crashing on a valid header: the property says nothing (C12's subject)
         notes.append("bindgen failed on batch %s: %s" % (tag, json.dumps(parsed)[:300]))
@@ -668,6 +683,7 @@ def r2(res, tier, agg):
             r2_declarations_enumerated=stats["declarations_enumerated"], t_shape_diffs=stats["t_shape_diffs"],
             bitfields_without_accessor=stats["bitfields_without_accessor"], r2_size_differs=stats["size_differs"],
             t_tampered_observation_flagged=stats["tampered_observation_flagged"],
+            r2_union_wrapper_decls_judged_after_wrapping=stats.get("union_wrapper_decls_judged_after_wrapping", 0),
             traces_validated_against_impl=stats["structs"],
             states=stats["gen_states"] + stats["trace_states"],
             transitions=stats["gen_transitions"] + stats["trace_transitions"])
